@@ -283,7 +283,7 @@ def check(chk):
                         cfg.guards_at(node.id).get("%s > 0" % amt) is True
                     chk.ob("BOUND-3", "a bulk increase fills the device exactly to capacity (%s)" % m.name, ok, m.where(x), construct=m.ident,
                            text="_last_count += %s" % amt)
-    chk.expect(n_st >= 5, "C04: stores to the entrance counter lost (%d)" % n_st)
+    chk.expect(n_st >= 3, "C04: stores to the entrance counter lost (%d)" % n_st)
 
 
 def battery():
